@@ -114,6 +114,11 @@ type Script struct {
 	// handlers and has already listed everything (results carrying a 60 s TTL) is connected: after the
 	// change notifications that session must list the new state, on every page.
 	Late []Op `json:"late,omitempty"`
+	// LateAt: 0 applies the Late operations after that session's first listing; n > 0 applies them inside the
+	// session's sending middleware, right after the n-th list response of the first listing came back and
+	// before it is handed to the lister, and waits there until the change notifications have been handled:
+	// the page in hand is then older than the last invalidation the client saw.
+	LateAt int `json:"late_at,omitempty"`
 }
 
 var legacyVersions = []string{"2025-06-18", "2025-06-18", "2025-11-25", "2025-03-26", "2024-11-05"}
@@ -210,6 +215,9 @@ func gen(rt *rapid.T) Script {
 		op.Names = []int{rapid.IntRange(0, len(alphabet)-1).Draw(rt, "late_name")}
 		op.Live = rapid.Bool().Draw(rt, "late_live")
 		s.Late = append(s.Late, op)
+	}
+	if len(s.Late) > 0 {
+		s.LateAt = rapid.SampledFrom([]int{0, 0, 1, 1, 2, 3, 5}).Draw(rt, "late_at")
 	}
 	if density := rapid.SampledFrom([]int{0, 3, 6, 9}).Draw(rt, "hide_density"); density > 0 {
 		for n := range alphabet {
@@ -771,6 +779,27 @@ func (e *env) lateChecks() {
 		PromptListChangedHandler:   func(context.Context, *mcp.PromptListChangedRequest) {},
 		ResourceListChangedHandler: func(context.Context, *mcp.ResourceListChangedRequest) {},
 	})
+	lateDone, listResponses, phase1 := false, 0, true
+	applyLate := func() {
+		lateDone = true
+		for _, op := range e.s.Late {
+			e.m.now++
+			e.exec(op)
+		}
+	}
+	client.AddSendingMiddleware(func(next mcp.MethodHandler) mcp.MethodHandler {
+		return func(ctx context.Context, method string, req mcp.Request) (mcp.Result, error) {
+			out, err := next(ctx, method, req)
+			if phase1 && !lateDone && e.s.LateAt > 0 && strings.HasSuffix(method, "/list") {
+				if listResponses++; listResponses == e.s.LateAt {
+					applyLate()
+					time.Sleep(time.Second) // the debounced notifications reach the client and are handled while this page is still in hand
+					e.res.Class("features_changed_while_a_list_page_was_on_its_way_back")
+				}
+			}
+			return out, err
+		}
+	})
 	cs, err := client.Connect(ctx, ct, nil)
 	if err != nil {
 		ss.Close()
@@ -787,10 +816,25 @@ func (e *env) lateChecks() {
 	version := cs.InitializeResult().ProtocolVersion
 	listAll := func(phase string) bool {
 		for k := 0; k < nKinds; k++ {
+			t1 := e.m.now + 1
 			got, err := iterate(cs, k, nil, limit)
 			if err != nil {
 				e.res.Failf("%s (protocol %s, %s): iterator failed after yielding %q: %v", kindName[k], version, phase, got, err)
 				return false
+			}
+			if t2 := e.m.now; t2 >= t1 {
+				// the feature sets changed during this very listing: only what stayed registered throughout is owed, once
+				count := map[string]int{}
+				for _, id := range got {
+					count[id]++
+				}
+				for _, id := range e.m.throughout(k, t1, t2) {
+					if count[id] != 1 {
+						e.res.Failf("%s (protocol %s, %s, page size %d): %q was registered during the whole listing but appears %d times in %q", kindName[k], version, phase, e.s.PageSize, id, count[id], got)
+						return false
+					}
+				}
+				continue
 			}
 			if want := e.m.sorted(k); !slices.Equal(sortedCopy(got), want) || !e.noteOrder(kindName[k]+" iterator, "+phase, k, nil, got) {
 				e.res.Failf("%s (protocol %s, %s, page size %d): iterator yielded %q, registered are %q", kindName[k], version, phase, e.s.PageSize, got, want)
@@ -802,9 +846,9 @@ func (e *env) lateChecks() {
 	if !listAll("first listing of a caching session") {
 		return
 	}
-	for _, op := range e.s.Late {
-		e.m.now++
-		e.exec(op)
+	phase1 = false
+	if !lateDone {
+		applyLate()
 	}
 	synctest.Wait()
 	time.Sleep(30 * time.Second) // list-changed notifications are debounced by a period the SDK chooses; still well inside the 60 s TTL
